@@ -91,7 +91,6 @@ def dsize(d):
 
 
 def opt_val(x):
-    assert x is not None
     return x
 
 
